@@ -1,3 +1,10 @@
 import Arp.Props.C17
 import Arp.Props.C17Small
-/-! # C17 — every theorem of the property (specials, exact symmetry, accuracy of `sin` and `cos` for `|x| < 1`) -/
+import Arp.Props.C17Big
+import Arp.Props.C17Std
+import Arp.Props.C17StdCos
+import Arp.Props.C17Tan
+import Arp.Props.C17TanBig
+import Arp.Props.C17StdTan
+/-! # C17 — every theorem of the property (specials, exact symmetry, accuracy of `sin`, `cos`, `tan`: small arguments
+universally, `1 ≤ |x| ≤ 128` conditionally on the computed `π` and unconditionally at the standard formats) -/
